@@ -21,6 +21,7 @@ import json
 import os
 import re
 import subprocess
+import tempfile
 import sys
 import time
 
@@ -49,6 +50,7 @@ def worker_main(args):
            "vtime": 0.0, "states": [], "samples": [], "all_digests": [], "sim_wall": 0.0}
     states = set()
     dig = set()
+    sig_seen = {}
     out = sys.stdout
     idx = args.offset
     while idx < args.count:
@@ -78,8 +80,16 @@ def worker_main(args):
             agg["samples"].append({"case": _trim(case), "digest": res["digest"],
                                    "trace": res.get("trace", [])[:40]})
         if res.get("violations"):
-            out.write("V " + json.dumps({"idx": idx, "case": case, "violations": res["violations"],
-                                         "digest": res["digest"]}) + "\n")
+            # full case only for the first reports of a signature; later ones are counted
+            fresh = [v for v in res["violations"] if sig_seen.get(v["sig"], 0) < 25]
+            for v in res["violations"]:
+                sig_seen[v["sig"]] = sig_seen.get(v["sig"], 0) + 1
+            if fresh:
+                out.write("V " + json.dumps({"idx": idx, "case": case, "violations": res["violations"],
+                                             "digest": res["digest"]}) + "\n")
+            else:
+                out.write("V " + json.dumps({"idx": idx, "case": None, "digest": res["digest"],
+                                             "violations": [{"sig": v["sig"], "detail": ""} for v in res["violations"]]}) + "\n")
             out.flush()
         idx += args.stride
     agg["digests"] = sorted(dig)
@@ -132,7 +142,12 @@ def _spawn_workers(prop, tier, base, count, workers, wall, digests=False, hashse
                "--offset", str(w), "--stride", str(workers), "--count", str(count), "--wall", str(wall)]
         if digests:
             cmd.append("--digests")
-        procs.append(subprocess.Popen(cmd, stdout=subprocess.PIPE, stderr=subprocess.PIPE, env=e, cwd=VERIF))
+        # output goes to anonymous temporary files, not pipes: a worker with many reports must never block on a
+        # full pipe while the parent is still reading another worker
+        so, se = tempfile.TemporaryFile(), tempfile.TemporaryFile()
+        p = subprocess.Popen(cmd, stdout=so, stderr=se, env=e, cwd=VERIF)
+        p._out, p._err = so, se
+        procs.append(p)
     return procs
 
 
@@ -140,11 +155,19 @@ def _collect(procs, hard_timeout):
     aggs, viols, errors = [], [], []
     t_end = time.time() + hard_timeout
     for p in procs:
+        timed_out = False
         try:
-            so, se = p.communicate(timeout=max(1, t_end - time.time()))
+            p.wait(timeout=max(1, t_end - time.time()))
         except subprocess.TimeoutExpired:
             p.kill()
-            so, se = p.communicate()
+            p.wait()
+            timed_out = True
+        p._out.seek(0)
+        p._err.seek(0)
+        so, se = p._out.read(), p._err.read()
+        p._out.close()
+        p._err.close()
+        if timed_out:
             errors.append("worker timed out\n" + se.decode("utf-8", "replace")[-3000:])
         for line in so.decode("utf-8", "replace").splitlines():
             if line.startswith("A "):
@@ -206,7 +229,7 @@ def check_main(prop, tier, base, runs=None, workers=None, wall=None):
               % (prop, fid, f["what"], n, first[0]["idx"]))
     reported = 0
     for sig in new_sigs[:4]:
-        v, one = by_sig[sig][0]
+        v, one = next((x for x in by_sig[sig] if x[0].get("case") is not None), by_sig[sig][0])
         path = write_replay(prop, v["case"], one, minimise=not os.environ.get("VERIF_NO_MINIMISE"))
         print("VIOLATION property=%s replay=%s" % (prop, path))
         print("  signature: %s" % sig)
